@@ -99,6 +99,7 @@ type vfSessRun struct {
 	serverEnded bool
 	clientIdle  bool
 	clientSaid  string // exit | fail | ""
+	msgBase     map[*vfLink]int // protocol lines each client-to-server link had seen when this transfer started
 	clientText  string
 	wall        time.Duration
 	started     time.Time
@@ -106,7 +107,7 @@ type vfSessRun struct {
 
 // vfStartTransfer prepares the filter and launches the server child; the transfer then runs by itself.
 func vfStartTransfer(sess *vfSession, cfg vfPairCfg, paths []string, dest string) (*vfSessRun, error) {
-	r := &vfSessRun{sess: sess, started: time.Now()}
+	r := &vfSessRun{sess: sess, started: time.Now(), msgBase: sess.msgCounts()}
 	if cfg.Protocol > 0 && cfg.Protocol < 4 {
 		p := cfg.Protocol
 		sess.c2s.rewrite = vfRewriteJSON("ACT", func(m map[string]any) {
@@ -175,7 +176,7 @@ func (r *vfSessRun) finish(limit time.Duration) {
 	r.sess.mu.Lock()
 	r.serverExit = r.sess.exitCode
 	r.sess.mu.Unlock()
-	r.clientSaid, r.clientText = r.sess.clientVerdict()
+	r.clientSaid, r.clientText = r.sess.clientVerdictSince(r.msgBase)
 }
 
 func (r *vfSessRun) serverSuccess() bool {
